@@ -265,7 +265,14 @@ pub fn gen_lattice<R: Src>(r: &mut R, cfg: &GenCfg) -> Program {
             1 => {
                let lc = clause(&lname, vec![av(&x), rd.arg.clone()]);
                let ec = clause(&edge, vec![av(&x), av(&y), av(&w)]);
-               let body = if lat_first { vec![lc, ec] } else { vec![ec, lc] };
+               // (every fourth rule: a guard in front, so that the lattice is the third clause of the body)
+               let body = if r.chance(25) {
+                  vec![clause(&seed, vec![av(&x), Arg::Wild]), ec, lc]
+               } else if lat_first {
+                  vec![lc, ec]
+               } else {
+                  vec![ec, lc]
+               };
                prog.rules.push(Rule { heads: vec![head(&lname, vec![var(&y), step(r, vt, &rd, Some(var(&w)))])], body });
             },
             _ => {
@@ -286,7 +293,13 @@ pub fn gen_lattice<R: Src>(r: &mut R, cfg: &GenCfg) -> Program {
                } else {
                   let ec = clause(&edge, vec![av(&x), av(&y), av(&w)]);
                   let lc = clause(&lname, vec![av(&y), av(&z), rd.arg.clone()]);
-                  let body = if lat_first { vec![lc, ec] } else { vec![ec, lc] };
+                  let body = if r.chance(25) {
+                     vec![clause(&seed, vec![av(&x), Arg::Wild]), ec, lc]
+                  } else if lat_first {
+                     vec![lc, ec]
+                  } else {
+                     vec![ec, lc]
+                  };
                   prog.rules.push(Rule {
                      heads: vec![head(&lname, vec![var(&x), var(&z), step(r, vt, &rd, Some(var(&w)))])],
                      body,
